@@ -119,110 +119,7 @@ func runC11(c *Ctx) {
 			c.Check(okD && okS, "C11-R1", "watch scan:SortReports then Dedup precede publication", pb.Inner.Pos(), "ordered", "the watch collector publishes a summary that was not sorted and then de-duplicated")
 		}
 	}
-	// comparator keys
-	if sr := c.MustFunc("C11-R1", "internal/reporter.Summary.SortReports"); sr != nil {
-		rinfo := sr.Pkg.TypesInfo
-		var cmpLit *ast.FuncLit
-		ast.Inspect(sr.Decl.Body, func(n ast.Node) bool {
-			call, ok := n.(*ast.CallExpr)
-			if !ok || len(call.Args) != 2 {
-				return true
-			}
-			fn := Callee(rinfo, call)
-			if fn == nil || fn.Pkg() == nil || fn.Pkg().Path() != "slices" || !strings.HasPrefix(fn.Name(), "Sort") {
-				return true
-			}
-			if fieldSel(rinfo, call.Args[0], "internal/reporter.Summary", "reports") {
-				cmpLit, _ = call.Args[1].(*ast.FuncLit)
-				c.Check(fn.Name() == "SortStableFunc" || fn.Name() == "SortFunc", "C11-R1", "SortReports:sorts s.reports in place", call.Pos(), fn.Name(), "unexpected sort function")
-			}
-			return true
-		})
-		if cmpLit == nil || len(cmpLit.Type.Params.List) == 0 {
-			c.Undecided("C11-R1", "SortReports:comparator", sr.Decl.Pos(), "comparator literal on s.reports not found")
-		} else {
-			var pa, pb types.Object
-			names := cmpLit.Type.Params.List[0].Names
-			if len(names) == 2 {
-				pa, pb = rinfo.Defs[names[0]], rinfo.Defs[names[1]]
-			}
-			keys := map[string]bool{}
-			ast.Inspect(cmpLit.Body, func(n ast.Node) bool {
-				call, ok := n.(*ast.CallExpr)
-				if !ok || len(call.Args) != 2 {
-					return true
-				}
-				ra, pathA, okA := accessPath(rinfo, call.Args[0])
-				rb, pathB, okB := accessPath(rinfo, call.Args[1])
-				if !okA || !okB || ra == rb {
-					return true
-				}
-				if !((ra == pa && rb == pb) || (ra == pb && rb == pa)) {
-					return true
-				}
-				sa := pathA[strings.Index(pathA, "."):]
-				sb := pathB[strings.Index(pathB, "."):]
-				if sa == sb {
-					keys[sa] = true
-				}
-				return true
-			})
-			for _, k := range []string{".Path.Name", ".Problem.Lines.First", ".Problem.Lines.Last", ".Problem.Severity", ".Problem.Reporter", ".Problem.Summary", ".Problem.Diagnostics", ".Problem.Details"} {
-				c.Check(keys[k], "C11-R1", "SortReports:comparator keys on"+k, cmpLit.Pos(), "compared on both operands", "the report order no longer depends on"+k+": reports differing only there keep their arrival order")
-			}
-			// the helper that orders two diagnostic lists looks at ALL of them and is
-			// antisymmetric: no fixed element of a parameter is singled out, and no
-			// non-zero constant is returned on the strength of one side's length alone
-			ast.Inspect(cmpLit.Body, func(n ast.Node) bool {
-				call, ok := n.(*ast.CallExpr)
-				if !ok || len(call.Args) != 2 || !strings.HasSuffix(exprStr(call.Args[0]), ".Problem.Diagnostics") {
-					return true
-				}
-				h := p.FuncOf(Callee(rinfo, call))
-				if h == nil || h.Decl.Body == nil {
-					return true
-				}
-				hinfo := h.Pkg.TypesInfo
-				pa0, pb0 := paramObj(h, 0), paramObj(h, 1)
-				fixed := ""
-				ast.Inspect(h.Decl.Body, func(m ast.Node) bool {
-					if ix, ok := m.(*ast.IndexExpr); ok {
-						if _, isC := constInt(hinfo, ix.Index); isC && (isObj(hinfo, ix.X, pa0) || isObj(hinfo, ix.X, pb0)) {
-							fixed = exprStr(ix)
-						}
-					}
-					return true
-				})
-				c.Check(fixed == "", "C11-R1", h.Obj.Name()+":orders two diagnostic lists by all their elements", h.Decl.Pos(), "no fixed element singled out",
-					"only `"+fixed+"` takes part in the comparison: reports that differ in a later diagnostic compare equal and keep the order in which the workers delivered them")
-				hpm := parentMap(h.Decl.Body)
-				oneSided := ""
-				for _, r := range returnsIn(h.Decl.Body.List) {
-					if len(r.Results) != 1 {
-						continue
-					}
-					if k, isC := constInt(hinfo, r.Results[0]); !isC || k == 0 {
-						continue
-					}
-					ma, mb := false, false
-					for _, a := range lexicalGuards(hpm, r, h.Decl.Body) {
-						if mentionsObj(hinfo, a.E, pa0) {
-							ma = true
-						}
-						if mentionsObj(hinfo, a.E, pb0) {
-							mb = true
-						}
-					}
-					if ma != mb {
-						oneSided = p.Pos(r.Pos())
-					}
-				}
-				c.Check(oneSided == "", "C11-R1", h.Obj.Name()+":is antisymmetric", h.Decl.Pos(), "no verdict from one operand alone",
-					"a non-zero result is returned at "+oneSided+" after looking at one operand only: for two reports that both satisfy that test cmp(a,b) and cmp(b,a) have the same sign, the order is not a total order and the sorted output depends on the input order")
-				return true
-			})
-		}
-	}
+	c11ComparatorKeys(c, "C11-R1")
 
 	// ---- R2 ----
 	if cr := c.MustFunc("C11-R2", "cmd/pint.checkRules"); cr != nil {
@@ -946,4 +843,117 @@ func packageVarInit(p *Prog, v *types.Var) ast.Expr {
 		}
 	}
 	return &ast.BadExpr{}
+}
+
+// c11ComparatorKeys: the comparator of Summary.SortReports keys on every field
+// that distinguishes two reports, and its helper for diagnostic lists is a
+// total, antisymmetric order. Reported under R (C11-R1; C17-R5: the text of a
+// pull-request comment is assembled from the reports in this order, so a tie
+// makes two runs over the same commit disagree about the comment).
+func c11ComparatorKeys(c *Ctx, R string) {
+	p := c.P
+	// comparator keys
+	if sr := c.MustFunc(R, "internal/reporter.Summary.SortReports"); sr != nil {
+		rinfo := sr.Pkg.TypesInfo
+		var cmpLit *ast.FuncLit
+		ast.Inspect(sr.Decl.Body, func(n ast.Node) bool {
+			call, ok := n.(*ast.CallExpr)
+			if !ok || len(call.Args) != 2 {
+				return true
+			}
+			fn := Callee(rinfo, call)
+			if fn == nil || fn.Pkg() == nil || fn.Pkg().Path() != "slices" || !strings.HasPrefix(fn.Name(), "Sort") {
+				return true
+			}
+			if fieldSel(rinfo, call.Args[0], "internal/reporter.Summary", "reports") {
+				cmpLit, _ = call.Args[1].(*ast.FuncLit)
+				c.Check(fn.Name() == "SortStableFunc" || fn.Name() == "SortFunc", R, "SortReports:sorts s.reports in place", call.Pos(), fn.Name(), "unexpected sort function")
+			}
+			return true
+		})
+		if cmpLit == nil || len(cmpLit.Type.Params.List) == 0 {
+			c.Undecided(R, "SortReports:comparator", sr.Decl.Pos(), "comparator literal on s.reports not found")
+		} else {
+			var pa, pb types.Object
+			names := cmpLit.Type.Params.List[0].Names
+			if len(names) == 2 {
+				pa, pb = rinfo.Defs[names[0]], rinfo.Defs[names[1]]
+			}
+			keys := map[string]bool{}
+			ast.Inspect(cmpLit.Body, func(n ast.Node) bool {
+				call, ok := n.(*ast.CallExpr)
+				if !ok || len(call.Args) != 2 {
+					return true
+				}
+				ra, pathA, okA := accessPath(rinfo, call.Args[0])
+				rb, pathB, okB := accessPath(rinfo, call.Args[1])
+				if !okA || !okB || ra == rb {
+					return true
+				}
+				if !((ra == pa && rb == pb) || (ra == pb && rb == pa)) {
+					return true
+				}
+				sa := pathA[strings.Index(pathA, "."):]
+				sb := pathB[strings.Index(pathB, "."):]
+				if sa == sb {
+					keys[sa] = true
+				}
+				return true
+			})
+			for _, k := range []string{".Path.Name", ".Problem.Lines.First", ".Problem.Lines.Last", ".Problem.Severity", ".Problem.Reporter", ".Problem.Summary", ".Problem.Diagnostics", ".Problem.Details"} {
+				c.Check(keys[k], R, "SortReports:comparator keys on"+k, cmpLit.Pos(), "compared on both operands", "the report order no longer depends on"+k+": reports differing only there keep their arrival order")
+			}
+			// the helper that orders two diagnostic lists looks at ALL of them and is
+			// antisymmetric: no fixed element of a parameter is singled out, and no
+			// non-zero constant is returned on the strength of one side's length alone
+			ast.Inspect(cmpLit.Body, func(n ast.Node) bool {
+				call, ok := n.(*ast.CallExpr)
+				if !ok || len(call.Args) != 2 || !strings.HasSuffix(exprStr(call.Args[0]), ".Problem.Diagnostics") {
+					return true
+				}
+				h := p.FuncOf(Callee(rinfo, call))
+				if h == nil || h.Decl.Body == nil {
+					return true
+				}
+				hinfo := h.Pkg.TypesInfo
+				pa0, pb0 := paramObj(h, 0), paramObj(h, 1)
+				fixed := ""
+				ast.Inspect(h.Decl.Body, func(m ast.Node) bool {
+					if ix, ok := m.(*ast.IndexExpr); ok {
+						if _, isC := constInt(hinfo, ix.Index); isC && (isObj(hinfo, ix.X, pa0) || isObj(hinfo, ix.X, pb0)) {
+							fixed = exprStr(ix)
+						}
+					}
+					return true
+				})
+				c.Check(fixed == "", R, h.Obj.Name()+":orders two diagnostic lists by all their elements", h.Decl.Pos(), "no fixed element singled out",
+					"only `"+fixed+"` takes part in the comparison: reports that differ in a later diagnostic compare equal and keep the order in which the workers delivered them")
+				hpm := parentMap(h.Decl.Body)
+				oneSided := ""
+				for _, r := range returnsIn(h.Decl.Body.List) {
+					if len(r.Results) != 1 {
+						continue
+					}
+					if k, isC := constInt(hinfo, r.Results[0]); !isC || k == 0 {
+						continue
+					}
+					ma, mb := false, false
+					for _, a := range lexicalGuards(hpm, r, h.Decl.Body) {
+						if mentionsObj(hinfo, a.E, pa0) {
+							ma = true
+						}
+						if mentionsObj(hinfo, a.E, pb0) {
+							mb = true
+						}
+					}
+					if ma != mb {
+						oneSided = p.Pos(r.Pos())
+					}
+				}
+				c.Check(oneSided == "", R, h.Obj.Name()+":is antisymmetric", h.Decl.Pos(), "no verdict from one operand alone",
+					"a non-zero result is returned at "+oneSided+" after looking at one operand only: for two reports that both satisfy that test cmp(a,b) and cmp(b,a) have the same sign, the order is not a total order and the sorted output depends on the input order")
+				return true
+			})
+		}
+	}
 }
